@@ -244,7 +244,7 @@ def play(ctx, pattern, version='sym', compressed=False, sentinel=False,
 
 def instances(tier, seed):
     out = []
-    pats = ['K', 'P', 'KPK', 'UKH', 'KD', 'UD']
+    pats = ['K', 'P', 'KPK', 'PP', 'UKH', 'KD', 'UD']
     if tier == 'thorough':
         pats += ['KK', 'PUK', 'D', 'KKKK', 'KPUH', 'HUPK', 'PKPD', 'UUKD',
                  'HHKK']
